@@ -4,8 +4,8 @@
     Proved here: the interpreter's clauses are the manual's stream equations (`,` appends, `|` binds, `try` replaces the
     first error, `//`, `if`, `label`), and the algebra of these streams - the laws the manual states for filters - for
     every stream however it ends.  Compiler correctness ([compile_correct]) is proved for the binding core: variables, `as $x |` (nested, shadowing), `|`, `,`,
-    `//`, arithmetic, comparison, `and`/`or`, negation, `if`, `try`, array construction, paths and `reduce`/`foreach` - the compiled term with variables as
-    positions computes exactly the named semantics.  Definitions, labels, objects and destructuring patterns rest on the
+    `//`, arithmetic, comparison, `and`/`or`, negation, `if`, `try`, array construction, paths, `reduce`/`foreach`, `label`/`break` - the compiled term with variables as
+    positions computes exactly the named semantics.  Definitions, objects and destructuring patterns rest on the
     correspondence of tables and outputs. *)
 From Coq Require Import List FunctionalExtensionality.
 From JaqV Require Import Base.Bytes Base.Stream Val.Val Val.Err Core.Syntax Core.Compile Core.Natives Core.Run Proofs.StreamLaws Proofs.MonadLaws
@@ -84,18 +84,18 @@ Print Assumptions try_replaces_the_first_error.
 
 (** ** compiler correctness for the binding core *)
 (** [frag b n t]: t is built from `.`, numbers, variables in scope [b], `as $x |`, `|`, `,`, `//`, arithmetic, comparison,
-    and/or, negation, if, try, array construction, paths (.a, .[i], .[], slices, ?), reduce and foreach (nesting at most n); [sem] is its semantics with variables by name.
+    and/or, negation, if, try, array construction, paths (.a, .[i], .[], slices, ?), reduce, foreach, label and break (nesting at most n); [sem] is its semantics with variables by name.
     Compiling never fails on such a term, leaves the compiler state untouched, and the compiled term run in any context that
     holds the values of the variables at the positions the compiler assigned computes exactly [sem] - for every fuel,
     input and stream of outputs. *)
 Theorem compile_correct : forall g d nr defs b n t, frag b n t -> forall m e s tr, (n <= m)%nat -> scoped b e ->
   exists k trr, c_term g m e s t tr = ((k, trr), s)
-                /\ forall fuel c rho v, agrees e c rho -> run d nr defs fuel k c v = sem d fuel t rho v.
+                /\ forall fuel c rho v, agrees e c rho -> run d nr defs fuel k c v = sem d fuel t rho (labels c) v.
 Proof. exact CompileCorrect.compile_correct. Qed.
 Print Assumptions compile_correct.
 
 Theorem compile_correct_closed : forall g d nr defs n t, frag [] n t ->
   exists k trr, c_term g n empty_env empty_cst t [] = ((k, trr), empty_cst)
-                /\ forall fuel v, run d nr defs fuel k {| vars := []; labels := 0 |} v = sem d fuel t [] v.
+                /\ forall fuel v, run d nr defs fuel k {| vars := []; labels := 0 |} v = sem d fuel t [] 0 v.
 Proof. exact CompileCorrect.compile_correct_closed. Qed.
 Print Assumptions compile_correct_closed.
